@@ -143,6 +143,19 @@ def sym_send_explicit(nsubs, cap):
     last = {"st": pre}
 
     def on_wait(cond, pred):
+        # The sender is about to block (its predicate is false on the current state).  With every displacement < capacity
+        # this must not be a deadlock: the next message the slowest reader needs has to be queued already.  (For the
+        # real predicate - queue full - this is the explicit_deadlock state lemma; proving it HERE ties the lemma to
+        # whatever condition the real send() actually blocks on.)
+        st0 = last["st"]
+        m0 = smin(*st0["r"]) if nsubs > 1 else st0["r"][0]
+        d = fresh_int("d", 0, cap - 1)
+        assume(implies(m0 + 1 <= st0["n"] - 1 - d, has(st0["heap"], m0 + 1)))  # all numbers <= n-1-d were sent
+        assume(sand(k >= st0["n"] - d, k <= st0["n"] + d))  # the message being sent (position n) obeys the bound as well
+        # ... and so will the rest: every number <= n - d other than k must have been sent before position n
+        assume(implies(sand(m0 + 1 <= st0["n"] - d, m0 + 1 != k), has(st0["heap"], m0 + 1)))
+        prove(has(st0["heap"], m0 + 1), "send_explicit:sender blocks while the next message the slowest reader needs is "
+                                        "not queued (deadlock although every displacement < capacity)")
         st = sim.havoc(tie_n=pre["n"], closed=False)
         for h, _ in st["heap"]:
             assume(h != k)
